@@ -131,7 +131,7 @@ func evaluate(s *wscript) verdict {
 				// statement is not violated either way: ambiguous.
 				// (casValidatingReader, once it has all the bytes it expects,
 				// accepts a decoder error io.ErrUnexpectedEOF as end of stream.)
-				decoded = d
+				decoded = s.obj.data
 				brokenTail = true
 			default:
 				defs["zstd-stream-invalid"] = true
